@@ -89,16 +89,20 @@ def entry_shapes(ctx, prop):
 
 
 def external_storage(ctx, nquick=60, nthorough=800, storage="memory"):
-    """ChainStore.tla behaviours (storage faults, detached cache writes, restarts with a cold cache) on twin instances:
-    what the direct mode serves is what the external-storage mode serves, or an error.
+    """ChainStore.tla behaviours on twin instances of a process that serves two logs (each with its own table and its
+    own cache from the repository's cache constructor): storage faults followed by the re-submission, detached cache
+    writes, restarts with cold caches, get-entries pages with a leaf that cannot be fixed under every completion order
+    of the per-leaf work.  What the direct mode serves is what the external-storage mode serves, or an error; what a
+    log acknowledges is in the table of that log.  Plus the complete page matrix (TestChainStoreBackendFaults).
     storage: the layer below the external twin - "memory" (default: the in-memory stand-in), "mysql" or "postgresql"
     (the repository's SQL IssuanceChainStorage on the in-process database of harness/sqlfake; ChainStore.tla's Dialect)."""
     suffix = {"memory": "", "mysql": "Mysql", "postgresql": "Postgresql"}[storage]
     behs = []
     for cap in ("Cap0", "Cap1"):
-        r = ctx.tlc("ctfe", "MCChainStore", "ChainStoreSim%s%s.cfg" % (cap, suffix), simulate=ctx.pick(nquick, nthorough), depth=34, count=False)
+        r = ctx.tlc("ctfe", "MCChainStore", "ChainStoreSim%s%s.cfg" % (cap, suffix), simulate=ctx.pick(nquick, nthorough), depth=40, count=False)
         behs += r.records.get("BEH", [])
     if not behs:
         raise Infra("no ChainStore behaviours")
     path = ctx.write_ndjson("chainstore.ndjson", behs)
     ctx.go_test("cctfe", run="TestChainStore$", env={"VERIF_BEHAVIOURS": path}, timeout=3000, name="externalstorage")
+    ctx.go_test("cctfe", run="TestChainStoreBackendFaults$", timeout=600, name="externalstorage-pages")
